@@ -117,7 +117,7 @@ m('10-no-tree-refresh-in-next_backend', 'src/btree/iter.rs', "\t\tlet BtreeIterB
 m('23-marker-collides-with-size', 'src/table.rs', "const MULTIHEAD_COMPRESSED: &[u8] = &[0xfd, 0x7f];", "const MULTIHEAD_COMPRESSED: &[u8] = &[0xf6, 0x7f];", {'C06': ['2']})
 m('24-size-tiers-not-increasing', 'src/column.rs', "\t32, 33, 34, 35, 36, 37, 38, 39, 40, 41, 42, 43, 44, 46,", "\t32, 33, 34, 35, 36, 37, 38, 39, 40, 41, 42, 44, 44, 46,", {'C06': ['1']})
 # ---- C14
-m('41-no-index-remove-on-delete', 'src/column.rs', "\t\t\t\tindex.write_remove_plan(key, sub_index, log)?;\n\t\t\t\tOk(PlanOutcome::Written)", "\t\t\t\tlet _ = (index, sub_index);\n\t\t\t\tOk(PlanOutcome::Written)", {'C14': ['3']})
+m('41-no-index-remove-on-delete', 'src/column.rs', "\t\t\t\tindex.write_remove_plan(key, sub_index, log)?;\n\t\t\t\tOk((PlanOutcome::Written, None))", "\t\t\t\tlet _ = (index, sub_index);\n\t\t\t\tOk((PlanOutcome::Written, None))", {'C14': ['3']})
 
 # ---- C15 lock order
 m('45-overlay-before-queue-lock', 'src/db.rs', "\tfn commit_raw(&self, commit: CommitChangeSet) -> Result<()> {\n\t\tlet mut queue = self.commit_queue.lock();\n", "\tfn commit_raw(&self, commit: CommitChangeSet) -> Result<()> {\n\t\tlet mut overlay = self.commit_overlay.write();\n\t\tlet mut queue = self.commit_queue.lock();\n",
